@@ -59,6 +59,7 @@ def build_cases(ctx, T, harness):
     cases += ps.charset_cases(seed, T, [c["doc"] for c in gd], 200 if quick else 2000)
     cases += ps.tolerance_cases(T)
     cases += ps.nested_cases(T)
+    cases += ps.nested_cases(T, depths=(999, 1000, 1001, 1500))[:4]
     base = gd + sd + [c for c in cases if c["kind"] == "corpus"][:: 8 if quick else 1]
     cases += ps.malformed_cases(seed, base, 150 if quick else 2500, 4000 if quick else 60000, T)
     return cases, nfiles, crashes
@@ -75,8 +76,8 @@ def run(ctx):
         "attribute values are compared without the terminating NUL the parser appends to a non-empty value buffer; "
         "PI data and literal names travel as C strings",
         "allocation failure is not modelled (C16)",
-        "generated nesting is at most 200: deeper nesting is the subject of C01 (D1); the model carries the nesting limit "
-        "WBXML_MAX_NESTING_DEPTH = 1000 that the current tree checks in parse_content",
+        "the model carries the nesting limit WBXML_MAX_NESTING_DEPTH = 1000 that parse_content checks (elements deeper than 1000 "
+        "below the root are refused with NESTING_TOO_DEEP); generated nesting goes to 1500",
     ]
     bad = common.forbidden_scan()
     T = pg.Tables(gen.gen_tables())
@@ -123,7 +124,8 @@ def run(ctx):
     spec_bad = []
     strict_n = strict_ok = 0
     if HAVE_SPEC and not getattr(ctx, "replay", None):
-        docs = [(i, c) for i, c in enumerate(cases) if "doc" in c and c["kind"] in ("systematic", "grammar", "grammar-strict") or c["kind"].startswith("nested")]
+        docs = [(i, c) for i, c in enumerate(cases)
+                if "doc" in c and c["doc"]["meta"] == 0 and (c["kind"] in ("systematic", "grammar", "grammar-strict") or c["kind"].startswith("nested"))]
         dl = ["den %d %d %s" % (c["doc"]["forced"], c["doc"]["meta"], pg.wdoc_text(c["doc"])) for _, c in docs]
         sl = ["ser " + pg.wdoc_text(c["doc"]) for _, c in docs]
         da, _ = common.run_lines(driver, dl)
